@@ -142,34 +142,35 @@ fn tokenize<'a>(line: &'a str, regex: &Regex) -> Vec<&'a str> {
     // prefix with a space implicitly generated this.
     let mut tokens = vec![""];
     let mut offset = 0;
-    // A token does not start inside a grapheme cluster: a variation selector or a combining
-    // mark is a word character, but it belongs to the (possibly non-word) character before it.
+    // A token neither starts nor ends inside a grapheme cluster: a variation selector, a combining
+    // mark or a zero-width joiner is a word character, but it belongs to the characters around it
+    // (`⬆️`, `👨‍💻`). Extend the matches to cluster borders and merge those that meet.
     let cluster_starts: Vec<usize> = line.grapheme_indices(true).map(|(i, _)| i).collect();
+    let mut ranges: Vec<(usize, usize)> = Vec::new();
     for m in regex.find_iter(line) {
         let start = match cluster_starts.binary_search(&m.start()) {
             Ok(_) => m.start(),
             Err(i) => cluster_starts[i.saturating_sub(1)],
         };
+        let end = match cluster_starts.binary_search(&m.end()) {
+            Ok(_) => m.end(),
+            Err(i) => cluster_starts.get(i).copied().unwrap_or(line.len()),
+        };
+        match ranges.last_mut() {
+            Some(last) if start < last.1 => last.1 = last.1.max(end),
+            _ => ranges.push((start, end)),
+        }
+    }
+    for (start, end) in ranges {
         if offset == 0 && start > 0 {
             tokens.push("");
         }
-        if start < offset {
-            // The cluster began in tokens which have been pushed already: merge them.
-            while let Some(t) = tokens.last() {
-                if !t.is_empty() && t.as_ptr() as usize - line.as_ptr() as usize >= start {
-                    tokens.pop();
-                } else {
-                    break;
-                }
-            }
-        } else {
-            // Align separating text as multiple single-character tokens.
-            for t in line[offset..start].graphemes(true) {
-                tokens.push(t);
-            }
+        // Align separating text as multiple single-character tokens.
+        for t in line[offset..start].graphemes(true) {
+            tokens.push(t);
         }
-        tokens.push(&line[start..m.end()]);
-        offset = m.end();
+        tokens.push(&line[start..end]);
+        offset = end;
     }
     if offset < line.len() {
         if offset == 0 {
